@@ -267,8 +267,12 @@ unsafe impl GlobalAlloc for SimHeap {
         if !ENABLED.load(Ordering::Relaxed) {
             return System.alloc(layout);
         }
-        let lib = LIB.try_with(|c| c.get()).unwrap_or(false) && RUN_ACTIVE.load(Ordering::Relaxed);
-        let real = if lib {
+        let active = RUN_ACTIVE.load(Ordering::Relaxed);
+        let lib = LIB.try_with(|c| c.get()).unwrap_or(false) && active;
+        // every block allocated during a run carries a tail canary: buffers the harness hands to the library
+        // (writers, inputs) are written to by the library too, and an overflow that goes unnoticed in its own
+        // run would damage the heap for the runs that follow in the same worker
+        let real = if active {
             Layout::from_size_align_unchecked(layout.size() + CANARY_LEN, layout.align())
         } else {
             layout
@@ -301,9 +305,12 @@ unsafe impl GlobalAlloc for SimHeap {
             return p;
         }
         let mut flags = 0;
-        if lib {
+        if active {
             std::ptr::write_bytes(p.add(layout.size()), CANARY, CANARY_LEN);
-            flags = F_LIB | F_CANARY;
+            flags = F_CANARY;
+        }
+        if lib {
+            flags |= F_LIB;
             LIB_LIVE.fetch_add(1, Ordering::Relaxed);
             LIB_ALLOCS.fetch_add(1, Ordering::Relaxed);
         }
